@@ -9572,7 +9572,9 @@ def write(node, f, pretty=True, **kwargs):
         if f.lower().endswith("svgz"):
             import gzip
 
-            f = gzip.open(f, "wb")
+            with gzip.open(f, "wb") as gz:
+                tree.write(gz, **kwargs)
+            return
     except AttributeError:
         # might be a pathlib.Path()
         pass
